@@ -87,8 +87,12 @@ def _analyse(args):
     try:
         prog = Program(root, overlay=overlay, base=base)
         ctx = report.Ctx(prop, "quick", prog)
-        mod.run(ctx)
         from .core import generic
+        try:
+            mod.run(ctx)
+        except report.AnalysisError:
+            generic.hygiene(ctx)
+            raise
         generic.hygiene(ctx)
         return {"keys": [f.key for f in ctx.findings], "error": None}
     except report.AnalysisError as e:
